@@ -1813,12 +1813,76 @@ def _own(node, fn):
     return False
 
 
+def r3_upcheck_all_members(program, rep):
+    """Every member of the merge is examined by the up-check: the member
+    loop is left early only once the merge has been given up (its goodness
+    fell to the threshold).  _refine_merge runs the up-check once and does
+    not come back to it, so a loop that stops after the first removal
+    leaves the members above it unexamined - they are merged and put below
+    an entry that matches their keys."""
+    up = program.get(OC + ":_refine_upcheck")
+    rm = program.get(OC + ":_refine_merge")
+    T = Terms(up)
+    cfg = T.cfg
+    rem, P0 = _upcheck_removal(up, T)
+    ucs = [c for c in ast.walk(rm) if isinstance(c, ast.Call) and
+           call_name(c)[0] == "_refine_upcheck"]
+    if len(ucs) != 1 or _loop(ucs[0]) is not None:
+        raise AnalysisError("_refine_merge: the up-check is not called "
+                            "exactly once outside any loop; whether every "
+                            "member gets examined is not analysed")
+    lp = _loop(rem[0][0])
+    if lp is None or not isinstance(lp, ast.For):
+        raise AnalysisError("_refine_upcheck: the members are not examined "
+                            "by a for loop over the merge's entries")
+    exits = [x for x in ast.walk(lp) if isinstance(x, (ast.Break,
+                                                        ast.Return)) and
+             _loop(x) is lp or (isinstance(x, ast.Return) and
+                                _own_within(x, lp) and _fn_of(x) is up)]
+    exits = list(dict((id(x), x) for x in exits).values())
+    bad = []
+    for x in exits:
+        if isinstance(x, ast.Return) and x.value is not None and any(
+                isinstance(c, ast.Call) and
+                call_name(c)[0] == "_refine_upcheck"
+                for c in ast.walk(x.value)):
+            raise AnalysisError("_refine_upcheck: restarts itself on the "
+                                "shrunken merge; not analysed")
+        facts = T.all_facts(cfg.node_of(x))
+        given_up = any(
+            t[0] == "cmp" and any(st[0] == "attr" and st[2] == "goodness"
+                                  for st in subterms(t)) and
+            any(st == ("param", formals(up)[1]) for st in subterms(t))
+            for t, p_ in facts)
+        if not given_up:
+            bad.append(x)
+    rep.check(not bad, "C04-R3", qual(up), "the up-check examines every "
+              "member: its loop is left early only when the merge has been "
+              "given up (goodness at or below the threshold)",
+              construct="up-check examines all members (%d early exit(s))" %
+              len(exits), node=bad[0] if bad else up,
+              fail="the member loop of the up-check is left after a removal "
+                   "although the merge is still being pursued: the members "
+                   "above the one removed are never compared with the "
+                   "entries between them and the insertion point, and "
+                   "_refine_merge does not run the up-check again")
+
+
+def _fn_of(n):
+    p = getattr(n, "_parent", None)
+    while p is not None and not isinstance(p, (ast.FunctionDef,
+                                               ast.AsyncFunctionDef)):
+        p = getattr(p, "_parent", None)
+    return p
+
+
 def check(program, rep):
     program.module(OC)
     rep.guard("C04-R1", r1_algebra, program, rep)
     rep.guard("C04-R2", r2_default, program, rep)
     rep.guard("C04-R3", r3_upcheck_range, program, rep)
     rep.guard("C04-R3", r3_ranges, program, rep)
+    rep.guard("C04-R3", r3_upcheck_all_members, program, rep)
     rep.guard("C04-R4", r4_aliases, program, rep)
     rep.guard("C04-R5", r5_contract, program, rep)
     rep.guard("C04-R6", r6_empty, program, rep)
